@@ -414,9 +414,9 @@ func (vc *VC) libraryCall(st *State, call *ast.CallExpr, key string, fn *types.F
 	case "time.Sleep":
 		now := vc.heapGetDefault(st, "gl$$now", vc.initialNow())
 		t := vc.fresh("now", SInt)
+		vc.ensureSlack()
 		st.assume(app(SBool, ">=", t, app(SInt, "+", now, app(SInt, "imax", a(0), IntLit(0)))))
 		st.assume(app(SBool, "<=", t, app(SInt, "+", app(SInt, "+", now, app(SInt, "imax", a(0), IntLit(0))), Term{"time$slack", SInt})))
-		vc.ensureSlack()
 		st.heap["gl$$now"] = t
 		return nil, true
 	case "(time.Time).Sub":
